@@ -517,16 +517,36 @@ package tchannel
 // under the list lock, which these callers cannot see)
 //@ func (l *PeerList) onPeerChange(p *Peer)
 //@   trusted
-//@   modifies allbut Channel, subChannelMap, SubChannel
+//@   modifies allbut Channel, subChannelMap, SubChannel, Connection
 //@   property C15fan
 //@ func (subChMap *subChannelMap) updatePeer(p *Peer)
 //@   nosafety
-//@   modifies all
+//@   modifies allbut Connection
 //@   defines fanned(subChMap) == 1
 //@   property C15 C15fan
 //@ func (ch *Channel) updatePeer(p *Peer)
 //@   nosafety
-//@   modifies all
+//@   modifies allbut Connection
 //@   label isolated-lists-are-told-about-every-score-change
 //@   atcall callOnUpdateComplete fanned(old(ch.subChannels)) == 1
 //@   property C15 C15fan
+
+// "fewer pending calls first": when the pending calls of a connection change,
+// EVERY peer the connection is listed under is looked up for re-scoring -- the
+// peer of the announced host:port and, for an outbound connection that was
+// dialled under a different address (a proxy, a TCP relay), the peer of that
+// address too; the close path (connectionCloseStateChange) already does both.
+// (calls(F): number of calls of F made by the function's own body.)
+//@ func (ch *Channel) exchangeUpdated(c *Connection)
+//@   nosafety
+//@   modifies all
+//@   label looked-up-under-both-addresses
+//@   ensures old(c.remotePeerInfo.HostPort) != "" && old(c.outboundHP) != "" && old(c.outboundHP) != old(c.remotePeerInfo.HostPort) ==> calls(Get) == 2
+//@   property C15
+// (the peer's onUpdate hook is test-only; assumed, T4, to leave connections alone)
+//@ funcfield Peer.onUpdate(p *Peer)
+//@   modifies allbut Connection
+//@ func (p *Peer) callOnUpdateComplete()
+//@   nosafety
+//@   modifies allbut Connection
+//@   property C15
